@@ -5,6 +5,7 @@ mod exp;
 mod gens;
 mod models;
 mod props;
+mod rlnh;
 
 use engine::*;
 use std::path::PathBuf;
@@ -43,6 +44,9 @@ macro_rules! dispatch {
             "C07" => $f(&props::c07::C07, $($arg),*),
             "C19" => $f(&props::c19::C19, $($arg),*),
             "C20" => $f(&props::c20::C20, $($arg),*),
+            "C04" => $f(&props::c04::C04, $($arg),*),
+            "C10" => $f(&props::c10::C10, $($arg),*),
+            "C03" => $f(&props::c03::C03, $($arg),*),
             _ => {
                 eprintln!("unknown property {}", $id);
                 2
